@@ -24,7 +24,9 @@ BOUNDS = {
     'quick': 'all call sequences of length <= 2 over {positions, displacements, cumulative_displacements, distances, tracer_diffusivity, '
              'filter, [1:], [::2], [1:3], [::-1], [0:2][0:1], split(2), extend} on a T=4, A=2 (Li,O) trajectory with coordinates any '
              'reals in [-1,2] (start in positions mode) or steps in (-1/2,1/2) + base in [0,1) (start in displacement mode); every '
-             'derived trajectory additionally goes through displacements -> positions; to_volume on T=2, A=1',
+             'derived trajectory additionally goes through displacements -> positions; to_volume on T=2, A=1; '
+             'raw variants: every single call on a positions-mode source whose stored coordinates are still unwrapped (any reals in [-1,2]), '
+             'met either directly or after an initial .positions query whose answer must persist',
     'thorough': 'sequences of length <= 3 (first op restricted to mode-changing / deriving ops), T=4, A=2; plus T=5 slices with all (start,stop,step) in range',
 }
 OUTSIDE = ['integer frame indexing (returns a pymatgen Structure, which cannot hold symbolic coordinates)',
@@ -32,6 +34,8 @@ OUTSIDE = ['integer frame indexing (returns a pymatgen Structure, which cannot h
            'mean_squared_displacement inside sequences (covered in C06)']
 ASSUMPTIONS = [
     'REAL mode: floats read as reals',
+    'oracle: a .positions answer equals the expected frames/atoms modulo 1 (that it also lies in [0,1) is C01), and a later answer of the '
+    'same object is exactly the earlier one (stability under read-only queries)',
     'no step of the source lies exactly on a half-cell tie (minimum image not unique there)',
     'compositional cuts: after every call the coordinates held by each trajectory are proved equal to a closed form '
     '(wrapped input, or raw step + integer) and replaced by it, so terms stay shallow; each cut is a discharged obligation',
@@ -46,6 +50,34 @@ def is_int(v):
     return sfloor(v) == v
 
 
+def eq_mod1(a, b):
+    """a = b modulo 1 (the equality disjunct lets the solver skip the floor term in the common case)"""
+    from symgem.core import disj
+    return disj([a == b, is_int(a - b)])
+
+
+def provably(cond, timeout_ms=5000):
+    """True iff `cond` follows from the declared domains of its variables alone (quiet: records no obligation)."""
+    import z3
+    c = core.ctx()
+    p = z3.simplify(core._bt(cond)) if not isinstance(cond, bool) else cond
+    if isinstance(p, bool):
+        return p
+    if z3.is_true(p):
+        return True
+    if z3.is_false(p):
+        return False
+    names = {}
+    core._free_consts(p, names)
+    s = z3.Solver()
+    s.set('timeout', timeout_ms)
+    for n in names:
+        for b in c.bounds.get(n, []):
+            s.add(b)
+    s.add(z3.Not(p))
+    return s.check() == z3.unsat
+
+
 class World:
     """Tracks, for every live trajectory object, the closed form E (wrapped positions) it must represent."""
 
@@ -53,6 +85,7 @@ class World:
         self.gt = gt
         self.M = M
         self.meta = {'temperature': 300, 'tag': 'src'}
+        self.ref = None   # first answer of the source's .positions (later answers must be identical)
 
     def make(self, coords, species=SPECIES, **kw):
         from pymatgen.core import Species
@@ -88,17 +121,27 @@ class World:
             C = Y.coords
             prove(f'{label}: shape', tuple(C.shape) == tuple(E.shape))
             for idx in np.ndindex(E.shape):
-                prove_isolated(f'{label}: stored position = expected frame/atom of the source (mod 1)', is_int(C[idx] - E[idx]),
+                prove_isolated(f'{label}: stored position = expected frame/atom of the source (mod 1)', eq_mod1(C[idx], E[idx]),
                                timeout_ms=60000)
-            Y.coords = E.copy()
-            Y.base_positions = E[0].copy() if False else Y.base_positions
+            # cut to the closed form only where the stored value provably IS the wrapped value; coordinates stored unwrapped
+            # (legal in positions mode) stay as they are, so later calls see what the real object holds
+            if provably(conj([C[idx] == E[idx] for idx in np.ndindex(E.shape)]), timeout_ms=20000):
+                Y.coords = E.copy()
 
-    def check_positions(self, Y, E, label):
+    def check_positions(self, Y, E, label, ref=None):
+        """`.positions` must equal the expected frames/atoms modulo 1 and, when an earlier answer `ref` of the same object is
+        given, be exactly that earlier answer (read-only queries in between change nothing).  Returns the answer."""
         P = Y.positions
         prove(f'{label}: shape', tuple(P.shape) == tuple(E.shape))
         for idx in np.ndindex(E.shape):
-            prove_isolated(f'{label}: .positions = expected frames/atoms of the source', P[idx] == E[idx], timeout_ms=60000)
-        Y.coords = E.copy()
+            prove_isolated(f'{label}: .positions = expected frames/atoms of the source (mod 1)', eq_mod1(P[idx], E[idx]), timeout_ms=60000)
+            if ref is not None:
+                prove_isolated(f'{label}: .positions returns exactly what it returned before the read-only queries', P[idx] == ref[idx],
+                               timeout_ms=60000)
+        snap = P.copy()
+        if provably(conj([P[idx] == E[idx] for idx in np.ndindex(E.shape)]), timeout_ms=20000):
+            Y.coords = E.copy()
+        return snap
 
     def check_meta(self, Z, species, label):
         prove(f'{label}: species, lattice, time step, metadata preserved',
@@ -108,12 +151,12 @@ class World:
 
     def roundtrip(self, Z, E, label):
         """Read-only queries on a derived object must not change what it returns."""
-        self.check_positions(Z, E, label + ' (fresh)')
+        first = self.check_positions(Z, E, label + ' (fresh)')
         Z.displacements
         self.settle(Z, E, label + ' (after displacements)')
         Z.distances_from_base_position()
         self.settle(Z, E, label + ' (after distances)')
-        self.check_positions(Z, E, label + ' (after displacement queries)')
+        self.check_positions(Z, E, label + ' (after displacement queries)', ref=first)
 
 
 SLICES = {'[1:]': slice(1, None), '[::2]': slice(None, None, 2), '[1:3]': slice(1, 3), '[::-1]': slice(None, None, -1)}
@@ -126,7 +169,7 @@ def apply_op(w, S_, E, op, tag):
     """Apply one API call to the source S_ (expected wrapped positions E); verify source and derived objects."""
     T = E.shape[0]
     if op == 'positions':
-        S_.positions
+        w.ref = w.check_positions(S_, E, f'{tag} positions query', ref=w.ref)
     elif op == 'displacements':
         S_.displacements
     elif op == 'cumulative_displacements':
@@ -222,6 +265,7 @@ def _concrete_source(gt, mode, T, A, inputs, M, meta):
 def seq_job(params):
     from symgem.runner import merge_results
     mode, T, A, seqs = params['mode'], params['T'], params['A'], params['seqs']
+    raw = params.get('raw')
     M = pool.lattice_matrices()[LAT]
     results = []
     for seq in seqs:
@@ -236,10 +280,13 @@ def seq_job(params):
                 src, E = _source(w, mode, T, A)
                 tag = '>'.join(seq)
                 try:
-                    w.settle(src, E, f'{tag} initial')
+                    if raw == 'query':      # unwrapped input, first call is a .positions query
+                        w.ref = w.check_positions(src, E, f'{tag} initial positions query')
+                    elif raw is None:       # (raw == 'noquery': the first call of the sequence meets the unwrapped input)
+                        w.settle(src, E, f'{tag} initial')
                     for i, op in enumerate(seq):
                         apply_op(w, src, E, op, f'[{tag}]#{i}')
-                    w.check_positions(src, E, f'[{tag}] source at the end')
+                    w.check_positions(src, E, f'[{tag}] source at the end', ref=w.ref)
                     w.check_meta(src, SPECIES, f'[{tag}] source at the end')
                 except Exception as e:
                     event(f'exception:{type(e).__name__} in {tag}', detail=str(e)[:200])
@@ -268,12 +315,19 @@ def seq_job_replay(params, inputs):
     meta = {'temperature': 300, 'tag': 'src'}
     eps = 1e-9
 
+    def unstable(P0, P1):
+        """exact stability of two answers; entries within 1e-6 of a cell face are compared modulo 1 only (float wrap artefacts)"""
+        P0, P1 = np.asarray(P0, dtype=float), np.asarray(P1, dtype=float)
+        far = np.abs(P0 - np.round(P0)) > 1e-6
+        return P0.shape != P1.shape or bool((np.abs(P0 - P1)[far] > eps).any()) or _circ(P0, P1) > eps
+
     def derived_ok(Z, EZ, what):
-        if Z.positions.shape != EZ.shape or _circ(Z.positions, EZ) > eps:
+        P0 = np.array(Z.positions, dtype=float)
+        if P0.shape != EZ.shape or _circ(P0, EZ) > eps:
             return f'{what}: positions differ from the source frames/atoms'
         Z.displacements
         Z.distances_from_base_position()
-        if _circ(Z.positions, EZ) > eps:
+        if _circ(Z.positions, EZ) > eps or unstable(P0, Z.positions):
             return f'{what}: positions change after displacement queries'
         if Z.metadata != meta or Z.time_step != 2e-15:
             return f'{what}: metadata/time step'
@@ -286,11 +340,15 @@ def seq_job_replay(params, inputs):
                 if np.abs(fr - 0.5).min() < 1e-7:
                     return True, 'tie: outside the claim'
         src, E = _concrete_source(gt, mode, T, A, inputs, M, meta)
+        ref = np.array(src.positions, dtype=float) if params.get('raw') == 'query' else None
         for op in seq:
             msg = None
             try:
                 if op == 'positions':
-                    src.positions
+                    if ref is None:
+                        ref = np.array(src.positions, dtype=float)
+                    elif unstable(ref, src.positions):
+                        msg = 'positions query returns something else than the earlier positions query'
                 elif op == 'displacements':
                     src.displacements
                 elif op == 'cumulative_displacements':
@@ -322,6 +380,8 @@ def seq_job_replay(params, inputs):
                 return False, f'sequence {seq}: {msg}; inputs={ {k: float(v) for k, v in inputs.items() if not k.startswith('__')} }'
             if _circ(src.positions, E) > eps:
                 return False, f'sequence {seq}: source positions changed after {op}'
+        if ref is not None and unstable(ref, src.positions):
+            return False, f'sequence {seq}: .positions of the source differs from its answer before the read-only queries; inputs={ {k: float(v) for k, v in inputs.items() if not k.startswith("__")} }'
     return True, 'ok'
 
 
@@ -378,5 +438,11 @@ def jobs(tier, seed):
     for mode in ('positions', 'displacement'):
         for i in range(0, len(seqs), chunk):
             js.append(dict(name=f'seq_{mode}_{i // chunk:03d}', fn='seq_job', params=dict(mode=mode, T=T, A=A, seqs=seqs[i:i + chunk])))
+    # unwrapped input met by the first call itself ('noquery') or by an initial .positions query whose answer must persist ('query')
+    rseqs = [[a] for a in OPS] if tier == 'quick' else [[a] for a in OPS] + [[a, b] for a in ['displacements', 'filter', '[1:]', 'extend'] for b in OPS]
+    for raw in ('query', 'noquery'):
+        for i in range(0, len(rseqs), chunk):
+            js.append(dict(name=f'seq_positions_raw_{raw}_{i // chunk:03d}', fn='seq_job',
+                           params=dict(mode='positions', T=T, A=A, seqs=rseqs[i:i + chunk], raw=raw)))
     js.append(dict(name='to_volume_readonly', fn='volume_job', params={}))
     return js
